@@ -63,10 +63,12 @@ SPEC = Spec(
         "tied by exact differential (ok/error) on reflect-built types; mapstructure itself is library code",
         "load model (fresh default object per id, overlay of the instance's own keys): the per-instance defaults fed to the model are the effective "
         "configuration of the isolated component-level load (implementation-observed input, itself covered by the dec harness)",
-        "no translator: the schemas of the built-in configurations are not regenerated into Lean; they are exercised on the real structs by the harness",
+        "reflection translator harness/c13/schema_test.go (run by overlay inside cmd/otelcorecol, emits data only): key-space schema (squash inlined, "
+        "hook kind per leaf), factory default and custom-Unmarshal positions of every otelcorecol component -> Gen/ConfigSchemas.lean; the decode/encode "
+        "model (decodeV/encodeV) is tied on these schemas by exact differential in the load harness (written leaves and untouched defaults of every instance)",
     ],
     assumptions=[
-        "faithfulness of the typed and of the effective configuration (per-field behaviour of custom Unmarshal / MarshalText) is differential only",
+        "faithfulness theorems are claimed for positions without a custom Unmarshal (regenerated list C13_builtin_custom_positions) and assume the MarshalText/UnmarshalText round trip of text kinds; slices and maps are atoms in the decode model",
         "feature gates at their defaults (service.AllowNoPipelines disabled)",
         "value generators for the built-in components toggle booleans and numeric settings (always valid at decode time); string-valued settings with validation are exercised by fixed witnesses only",
     ],
